@@ -23,12 +23,16 @@ ParamLists == UNION { [1..n -> PKs] : n \in 0..MaxParams }
 \* mockable programs: fn / mod (with mock_api), deps generic-ref / impl-ref / no_deps / concrete, sync/async; plus entraited traits
 \* stamp: the function is stamped out by a macro_rules! macro: the #[entrait(..)] attribute, `fn` and the name are written in
 \* the macro body, the parameter list and the body come from the macro's caller (two hygiene contexts)
-MProgs == { p \in [mode : {"fn", "mod", "trait"}, nfn : 1..3, deps : {"genref", "implref", "nodeps", "concrete"}, async : BOOLEAN, params : ParamLists, stamp : BOOLEAN, cfg : BOOLEAN, rev : BOOLEAN, featoff : BOOLEAN] :
+MProgs == { p \in [mode : {"fn", "mod", "trait"}, nfn : 1..3, deps : {"genref", "implref", "nodeps", "concrete"}, async : BOOLEAN, params : ParamLists, stamp : BOOLEAN, cfg : BOOLEAN, rev : BOOLEAN, featoff : BOOLEAN, viafeat : BOOLEAN] :
             \* (no_deps only: with a dependency the generated `self` and the receiver end up in different hygiene contexts
             \*  and the expansion does not compile on any tree - an observation recorded in DESIGN.md, outside the statements)
             /\ (p.stamp => p.mode = "fn" /\ p.deps = "nodeps" /\ Len(p.params) >= 1)
             \* featoff: entrait is used WITHOUT its `unimock` cargo feature; unimock support comes from the `unimock` option alone
             \* (the invoking crate depends on unimock itself) - documented as the other way to enable it
+            \* viafeat: unimock support is switched on by entrait's `unimock` cargo feature alone (no `unimock` option), the invocation is
+            \* written with the exporting macro variant AND spells `export = true` out: `entrait_export(pub T, mock_api = Mk, export = true)`
+            \* (the variant's fallbacks [export, unimock] are applied one by one; a written option must not stop the others)
+            /\ (p.viafeat => ~p.featoff /\ ~p.stamp /\ ~p.cfg /\ ~p.rev /\ p.mode \in {"fn", "mod"} /\ Len(p.params) <= 1)
             /\ (p.featoff => ~p.stamp /\ ~p.cfg /\ ~p.rev /\ ~p.async /\ Len(p.params) <= 1)
             \* cfg: the functions of the module carry an ENABLED `#[cfg(..)]` (which the generator mirrors onto the generated methods)
             /\ (p.cfg => p.mode = "mod")
